@@ -266,8 +266,25 @@ def offline(ctx, res):
             with open(path, "w") as f:
                 f.write(src)
             args = [path]
-        texts = [json.dumps(d) for d in flag_docs]
-        stdin_text = json.dumps(stdin_doc) if stdin_doc is not None else None
+        # every JSON layout of the same document is the same input: compact, spaced, pretty-printed over several lines
+        # (with \n or \r\n), with blank lines / leading whitespace / a trailing newline
+        def layout(d):
+            k = r.randrange(7)
+            if k == 0:
+                return json.dumps(d)
+            if k == 1:
+                return json.dumps(d, separators=(",", ":"))
+            if k == 2:
+                return json.dumps(d, indent=2)
+            if k == 3:
+                return json.dumps(d, indent=2).replace("\n", "\r\n")
+            if k == 4:
+                return "\n\n  " + json.dumps(d, indent=1) + "\n\n"
+            if k == 5:
+                return json.dumps(d, indent="\t") + "\n"
+            return json.dumps(d) + "\n"
+        texts = [layout(d) for d in flag_docs]
+        stdin_text = layout(stdin_doc) if stdin_doc is not None else None
         if case["invalid_json"]:
             if texts and (stdin_text is None or idx % 2):
                 k = r.randrange(len(texts))
